@@ -7,6 +7,38 @@ import os
 VERIF = os.path.dirname(os.path.dirname(os.path.abspath(__file__)))
 
 
+LEVELS = ("exploration", "fault_enumeration", "model_checking", "proof", "translation_validation", "other")
+
+DIFF = "runtime monitoring: differential oracle (MuJoCo C as reference executor, ulp conditioning probe) over generated executions of the real code"
+META = "runtime monitoring: metamorphic oracle over pairs of executions of the real code"
+INV = "runtime monitoring: invariant monitor on live Data at API boundaries over generated executions"
+TECH = {
+  "C01": DIFF, "C02": DIFF, "C03": DIFF, "C04": DIFF + " (contact multisets)", "C05": DIFF + " (constraint-row multisets)",
+  "C06": "runtime monitoring: float64 cost/KKT certificate recomputed from the observed constraint rows + gated differential oracle",
+  "C07": DIFF, "C08": DIFF + " (lock-step with resynchronisation)", "C13": META + " (reset vs fresh vs control run)", "C14": DIFF + " + " + META,
+  "C15": DIFF + " (mj_getState/mj_setState) + round-trip monitor", "C18": META + " (47 broadphase configurations vs all-pairs)",
+  "C19": DIFF + " + independent rule evaluator", "C20": INV + " (float64 closed-form / support-function geometry)",
+  "C21": INV + " (float64 backward error of every factor/solve call)", "C22": INV + " + finite differences + " + DIFF, "C23": INV,
+  "C24": INV, "C26": INV + " (forward/inverse round trip) + " + DIFF, "C27": DIFF + " + finite differences",
+  "C28": "runtime monitoring: bounded-exhaustive enumeration of constraint graphs (eq_active per world) against union-find and mj_island",
+  "C29": INV + " (sleep state machine) + MuJoCo lock-step + launch-order permutation of the wake kernels",
+  "C30": DIFF + " + independent delay-line model", "C31": DIFF + " (field-by-field host/device round trip)", "C32": DIFF + " over flag subsets with measured liveness",
+  "C33": DIFF + " (mj_setConst)", "C34": DIFF + " (per-geom float64 ray table) + BVH-vs-brute metamorphic", "C35": DIFF + " (per-pixel rays from MuJoCo's GL frustum)",
+  "C37": META + " (step1;step2 vs step, forward twice)", "C38": META + " (compacted vs full solve) + " + INV, "C39": DIFF + " (mj_contactForce)", "C40": DIFF,
+}
+
+
+def _level(mod):
+  lv = getattr(mod, "LEVEL", "exploration")
+  return lv if lv in LEVELS else "exploration"
+
+
+def _text(mod):
+  doc = " ".join((getattr(mod, "LEVEL_TEXT", None) or (mod.__doc__ or "")).split())
+  rule = " ".join(str(getattr(mod, "RULE", "")).split())
+  return (doc[:900] + (" || Coverage rule: " + rule[:500] if rule else "") + " || Held on the executions observed (counts in the evidence file), not a proof.")[:1600]
+
+
 def main():
   props = [json.loads(l) for l in open(os.path.join(VERIF, "properties.jsonl"))]
   checks, na = [], []
@@ -30,12 +62,12 @@ def main():
         "replay_cmd_template": f"./check {pid} --replay {{path}}",
         "engine": "mon",
         "level_claimed": {
-          "category": getattr(mod, "LEVEL", "exploration"),
-          "text": getattr(mod, "LEVEL_TEXT", (mod.__doc__ or "").strip().split("\n\n")[0]),
+          "category": _level(mod),
+          "text": _text(mod),
           "design_ref": f"DESIGN.md section 4 {pid}",
         },
         "level_note": getattr(mod, "LEVEL_NOTE", "; ".join(getattr(mod, "ASSUMPTIONS", []))),
-        "technique": getattr(mod, "TECHNIQUE", "runtime monitoring: differential/metamorphic oracle over generated executions of the real code"),
+        "technique": getattr(mod, "TECHNIQUE", TECH.get(pid, "runtime monitoring: oracle over generated executions of the real code")),
       }
     )
   man = {
